@@ -18,7 +18,7 @@ ID = "C20"
 LEVEL = "exploration"
 SHARDS = {"quick": 8, "thorough": 16}
 RULE = ("argv = control <host> [--capabilities] [--auto | --id N --token T --key K] + 1..3 setting=value pairs, run through msmart.cli.main() "
-        "in-process on the virtual-time network against a V2 (or V3) model device in a generated initial state (optionally slow to answer the first state query, so that its answer to the repeated query arrives while the settings are being applied; its property-protocol settings at their defaults or all switched on). Valid pairs come "
+        "in-process on the virtual-time network against a V2 (or V3) model device in a generated initial state (optionally quick except for the acknowledgement of the display command, 0.3..1.9 s; optionally slow to answer the first state query, so that its answer to the repeated query arrives while the settings are being applied; its property-protocol settings at their defaults or all switched on). Valid pairs come "
         "from a table written from README lines 120-133: every writable setting; enumerations by member name in lower/upper/mixed "
         "case and by integer value (all members of all enums), raw integers 1..102 for fan_speed; numbers as int and float text "
         "incl. boundaries; booleans as True/False/true/false/TRUE/1/0; display_on equal to / different from the device's display. "
@@ -139,6 +139,21 @@ def run_cli(case: dict):
             discsim.UdpWorld(net, [dict(ip=h["ip"], listen_port=6445, replies=[(0.05, 6445, discsim.good_reply(h))])])
         holder["m"], holder["dev"] = m, dev
         holder["before"] = m.state.copy()
+        if case.get("toggle_delay"):
+            # the unit answers everything promptly except the display command, whose acknowledgement takes `toggle_delay` s (inside
+            # the 2 s the client waits before repeating a request): the command is not idempotent, it must be sent once
+            from .. import refcodec as rc2
+
+            def on_toggle(dev_, conn, frame):
+                try:
+                    b = rc2.frame_parse(frame).body
+                    is_toggle = b[0] == 0x41 and b[1] != 0x81 and b[4] == 0x02 and b[6] == 0x02
+                except Exception:
+                    is_toggle = False
+                if is_toggle:
+                    return ("answer", {"delay": case["toggle_delay"]})
+                return None
+            dev.on_data = on_toggle
         if case.get("late_dup"):
             # the unit is slow to answer the first state query (2.05 s: the client asks again after 2 s) and answers the repeated
             # query too: that second, identical report arrives `late_dup` s after the repeated query - while the CLI is already
@@ -348,6 +363,8 @@ def _mk_valid(pairs_settings, initial, caps, version, auto=False, props_on=False
         case["caps_nocustom"] = True
     if late_dup and version == 2 and not case["auto"] and not any(p[0] == "display_on" for p in pairs):
         case["late_dup"] = late_dup
+    elif late_dup and any(p[0] == "display_on" for p in pairs):
+        case["toggle_delay"] = [0.8, 1.5, 1.9, 0.45][int(late_dup * 100) % 4]
     return case
 
 
@@ -428,7 +445,18 @@ def run(ctx) -> None:
                         prs = [pa, pb] if order == 0 else [pb, pa]
                         case = _mk_valid(prs, dict(DEFAULT_INITIAL, power=True), z % 2 == 0, 2, False, False, False, late)
                         ctx.check(case, lambda c: _run_one(ctx, c))
-    ctx.sweep("breeze pairs; --capabilities on a unit without custom fan speeds x reported fan speeds; property + state setting x late duplicate report", z, True)
+    # a display change against a unit that is quick except for the acknowledgement of the display command
+    for disp in (True, False):
+        for delay in (0.3, 0.45, 0.8, 1.5, 1.9):
+            for extra in (None, (("eco", "bool", True), "eco=True")):
+                for caps in (False, True):
+                    z += 1
+                    if ctx.mine(z):
+                        prs = [(("display_on", "bool", disp), f"display_on={disp}")] + ([extra] if extra else [])
+                        case = _mk_valid(prs, dict(DEFAULT_INITIAL, display_on=not disp), caps, 2)
+                        case["toggle_delay"] = delay
+                        ctx.check(case, lambda c: _run_one(ctx, c))
+    ctx.sweep("breeze pairs; --capabilities on a unit without custom fan speeds x reported fan speeds; property + state setting x late duplicate report; slow display acknowledgement", z, True)
 
     valid = st.builds(_mk_valid, st.lists(pair_strategy(), min_size=1, max_size=3), gens.device_states(), st.booleans(), st.sampled_from([2, 2, 3]),
                       st.sampled_from([False, False, True]), st.booleans(), st.sampled_from([False, False, True]), st.sampled_from([None, None, None, 0.06, 0.07, 0.1, 0.2]))
